@@ -23,7 +23,11 @@
 #ifndef INIT_MAX
 #define INIT_MAX 0      // > 0: start from an arbitrary quiescent state with up to INIT_MAX pending events and up to 2 recycled (free) slots
 #endif
+#ifdef DTORENQ
+#define MAXP (KK + RA + 2 + INIT_MAX)
+#else
 #define MAXP (KK + RA + 1 + INIT_MAX)
+#endif
 #define MAXL 4         // listeners per key
 #define MAXH (2 + KK)
 
@@ -31,6 +35,13 @@ static int g_live_pay = 0; static int g_bad = 0; static int g_copies = 0;
 #define MAXSEQ 64
 static int g_live_seq[MAXSEQ];          // live instances per event (uid = the event's sequence number; survives moves, unlike a/b)
 static inline void seq_live(uint32_t uid, int d) { if(uid < MAXSEQ) g_live_seq[uid] += d; }
+#ifdef DTORENQ
+// an argument type whose destructor enqueues into the same queue (an RAII "completion token"): when the last instance of the armed event's
+// argument dies -- wherever the library destroys it -- one more event is enqueued. The library runs argument destructors without holding its
+// own locks, so this is an ordinary enqueue; a lock held across the destructor shows as a self-deadlock on the non-recursive mutex.
+static bool g_dtor_armed = false; static uint32_t g_dtor_uid = 0;
+static void dtor_enqueue();
+#endif
 struct Pay {
 	uint32_t a, b; uint32_t magic; uint32_t uid;
 	Pay() : a(0), b(0), magic(0xFEEDu), uid(0) { ++g_live_pay; }
@@ -43,7 +54,12 @@ struct Pay {
 #endif
 	Pay(Pay && o) noexcept : a(o.a), b(o.b), magic(0xFEEDu), uid(o.uid) { if(o.magic != 0xFEEDu) ++g_bad; o.a = 0xdead0001u; o.b = 0xdead0002u; ++g_live_pay; seq_live(uid, 1); }
 	Pay & operator=(Pay && o) noexcept { if(o.magic != 0xFEEDu || magic != 0xFEEDu) ++g_bad; seq_live(uid, -1); a = o.a; b = o.b; uid = o.uid; seq_live(uid, 1); o.a = 0xdead0001u; o.b = 0xdead0002u; return *this; }
-	~Pay() { if(magic != 0xFEEDu) ++g_bad; magic = 0xDEADu; --g_live_pay; seq_live(uid, -1); }
+	~Pay() {
+		if(magic != 0xFEEDu) ++g_bad; magic = 0xDEADu; --g_live_pay; seq_live(uid, -1);
+#ifdef DTORENQ
+		if(g_dtor_armed && uid == g_dtor_uid && uid < MAXSEQ && g_live_seq[uid] == 0) { g_dtor_armed = false; dtor_enqueue(); }
+#endif
+	}
 };
 
 static void on_listener(uint32_t lid, uint32_t a, uint32_t b);
@@ -128,7 +144,7 @@ struct G {
 };
 static G * g;
 
-enum { COV_PROCESS2 = 0, COV_IF_DECLINE, COV_IF_MIXED, COV_UNTIL_STOP, COV_REENTRANT_ENQ, COV_REENTRANT_TAKE, COV_TAKE, COV_PEEK, COV_CLEAR, COV_RECYCLE, COV_LISTENER_CHANGE, COV_REORDERED, COV_TIE, COV_N };
+enum { COV_PROCESS2 = 0, COV_IF_DECLINE, COV_IF_MIXED, COV_UNTIL_STOP, COV_REENTRANT_ENQ, COV_REENTRANT_TAKE, COV_TAKE, COV_PEEK, COV_CLEAR, COV_RECYCLE, COV_LISTENER_CHANGE, COV_REORDERED, COV_TIE, COV_DTOR_ENQ, COV_N };
 
 static void reentrant_action();
 
@@ -238,6 +254,10 @@ static void do_enqueue(int key)
 #endif
 }
 
+#ifdef DTORENQ
+static void dtor_enqueue() { if(g && g->q) { do_enqueue(0); vf_cover(COV_DTOR_ENQ); } }
+#endif
+
 static void do_take()
 {
 	Model & m = g->m;
@@ -272,7 +292,11 @@ static void reentrant_action()
 	if(act == 1) { do_enqueue((int)vf_choose(2)); vf_cover(COV_REENTRANT_ENQ); }
 	else if(act == 2) do_process_one();
 	else if(act == 3) { do_take(); vf_cover(COV_REENTRANT_TAKE); }
-	else if(act == 4) { g->q->clearEvents(); g->m.np = 0; }
+	else if(act == 4) {
+		Model & m = g->m; uint32_t disc[MAXP * 2]; int nd = m.np; for(int i = 0; i < nd; i++) disc[i] = m.p[i].b;
+		g->q->clearEvents();
+		int k = 0; for(int i = 0; i < m.np; i++) { bool d = false; for(int x = 0; x < nd; x++) if(disc[x] == m.p[i].b) d = true; if(! d) m.p[k++] = m.p[i]; } m.np = k;
+	}
 	else do_process();
 }
 
@@ -299,6 +323,9 @@ extern "C" void harness()
 		if(f) { int b0 = g->budget; g->budget = 0; do_process(); g->budget = b0; vf_assert(m.np == 0, 98); }
 		for(unsigned i = 0; i < n0; i++) do_enqueue((int)vf_choose(2));
 	}
+#endif
+#ifdef DTORENQ
+	{ unsigned c = vf_choose(3); if(c == 1) { g_dtor_armed = true; g_dtor_uid = g->seq; } else if(c == 2 && m.np > 0) { g_dtor_armed = true; g_dtor_uid = m.p[0].b; } }
 #endif
 	for(int step = 0; step < KK; step++) {
 		unsigned op = vf_choose(11 + (unsigned)g->nh);
@@ -335,11 +362,15 @@ extern "C" void harness()
 #endif
 		}
 		else if(op == 7) do_take();
-		else if(op == 8) { if(m.np > 0) vf_cover(COV_CLEAR); g->q->clearEvents();
+		else if(op == 8) {
+			if(m.np > 0) vf_cover(COV_CLEAR);
+			// the events pending when the call begins are the ones it discards (an argument's destructor may enqueue a new one meanwhile: that one stays)
+			uint32_t disc[MAXP * 2]; int nd = m.np; for(int i = 0; i < nd; i++) disc[i] = m.p[i].b;
+			g->q->clearEvents();
 #if PAYLOAD != 0
-			for(int i = 0; i < m.np; i++) if(m.p[i].b < MAXSEQ) vf_assert(g_live_seq[m.p[i].b] == 0, 90);   // the arguments of the events it discards are released before clearEvents returns
+			for(int i = 0; i < nd; i++) if(disc[i] < MAXSEQ) vf_assert(g_live_seq[disc[i]] == 0, 90);   // the arguments of the events it discards are released before clearEvents returns
 #endif
-			m.np = 0;
+			{ int k = 0; for(int i = 0; i < m.np; i++) { bool d = false; for(int x = 0; x < nd; x++) if(disc[x] == m.p[i].b) d = true; if(! d) m.p[k++] = m.p[i]; } m.np = k; }
 		}
 		else if(op <= 10) {
 			int k = (int)op - 9;
@@ -370,6 +401,9 @@ extern "C" void harness()
 #endif
 	}
 	{	// final drain: whatever is still pending comes out exactly once, in order, and the queue reports empty afterwards
+#ifdef DTORENQ
+		g_dtor_armed = false;
+#endif
 		g->budget = 0;
 		begin_batch(K_PROCESS, m.np);
 		bool r = g->q->process();
